@@ -9,6 +9,7 @@ use std::cmp::{max, min, Ordering};
 //@@ TYPE src/parse/lex/token.rs | struct | Lex
 //@@ TYPE src/parse/lex/token.rs | enum | Token
 //@@ TYPE src/parse/lex/state.rs | struct | State | pubfields
+//@@ TYPE src/parse/lex/pass/docstring.rs | struct | DocString | pubfields
 
 verus! {
 
@@ -17,6 +18,7 @@ verus! {
 #[verifier::external_type_specification] pub struct ExLex(Lex);
 #[verifier::external_type_specification] pub struct ExToken(Token);
 #[verifier::external_type_specification] pub struct ExState(State);
+#[verifier::external_type_specification] pub struct ExDocString(DocString);
 
 // ---- trusted: derived impls are structural (A-DERIVE), std conversions (A-STD) --------------------
 //@@ INCLUDE pos_body.inc.rs
@@ -285,7 +287,7 @@ impl State {
 //@@> let ghost g1 = $res@;
 //@@ HINT before
 //@@< $res }
-//@@> proof { lemma_token_output(*old(self), g0, gnl, g1, $res@, ki, kd); }
+//@@> proof { lemma_token_synthetic(*old(self), g0, gnl, g1, $res@, ki, kd); lemma_token_counts(*old(self), g0, gnl, g1, $res@, ki, kd); }
     requires
         wf(*old(self)),
         old(self).pos.line + tok_breaks(token) + 1 < 0x4000_0000,
@@ -354,34 +356,32 @@ pub open spec fn nl_at(p: CaretPos) -> Lex { Lex { pos: Position { start: p, end
 /// SCAFFOLDING RULE: this lemma states only structure (how many elements of which kind were appended); it
 /// never mentions the (line_indent - cur_indent) / 4 formula — that is left to the contract clause, so a
 /// change of the formula fails the clause and not a hint.
-pub proof fn lemma_token_output(pre: State, g0: Seq<Lex>, gnl: Seq<Lex>, g1: Seq<Lex>, res: Seq<Lex>, ki: int, kd: int)
-    requires
-        wf(pre), ki >= 0,
-        pre.newlines@.len() == 0 ==> g0.len() == 0 && gnl.len() == 0,
-        pre.newlines@.len() > 0 ==> g0 =~= seq![pre.newlines@.last()] && gnl =~= pre.newlines@.drop_last(),
-        g1.len() >= g0.len(),
-        g1.subrange(0, g0.len() as int) =~= g0,
-        kd < 0 ==> g1.len() == g0.len() + ki
-            && forall|i: int| g0.len() <= i < g1.len() ==> (#[trigger] g1[i]).token == Token::Indent && g1[i].pos.start == pre.pos,
-        kd >= 0 ==> g1.len() == g0.len() + kd + 1
+pub open spec fn token_shape(pre: State, g0: Seq<Lex>, gnl: Seq<Lex>, g1: Seq<Lex>, res: Seq<Lex>, ki: int, kd: int) -> bool {
+    &&& wf(pre) && ki >= 0
+    &&& (pre.newlines@.len() == 0 ==> g0.len() == 0 && gnl.len() == 0)
+    &&& (pre.newlines@.len() > 0 ==> g0 =~= seq![pre.newlines@.last()] && gnl =~= pre.newlines@.drop_last())
+    &&& g1.len() >= g0.len()
+    &&& g1.subrange(0, g0.len() as int) =~= g0
+    &&& (kd < 0 ==> g1.len() == g0.len() + ki
+            && forall|i: int| g0.len() <= i < g1.len() ==> (#[trigger] g1[i]).token == Token::Indent && g1[i].pos.start == pre.pos)
+    &&& (kd >= 0 ==> g1.len() == g0.len() + kd + 1
             && g1.last().token == Token::NL && g1.last().pos.start == pre.pos
-            && forall|i: int| g0.len() <= i < g1.len() - 1 ==> (#[trigger] g1[i]).token == Token::Dedent && g1[i].pos.start == pre.pos,
-        res.len() == g1.len() + gnl.len() + 1,
-        res.drop_last() =~= g1 + gnl,
-    ensures
-        forall|i: int| 0 <= i < res.len() - 1 ==> is_synthetic(#[trigger] res[i].token) && caret_le(res[i].pos.start, pre.pos),
-        kd < 0 ==> count_tok(res.drop_last(), Token::Indent) == ki && count_tok(res.drop_last(), Token::Dedent) == 0
-            && count_tok(res.drop_last(), Token::NL) == pre.newlines@.len(),
-        kd >= 0 ==> count_tok(res.drop_last(), Token::Indent) == 0 && count_tok(res.drop_last(), Token::Dedent) == kd
-            && count_tok(res.drop_last(), Token::NL) == pre.newlines@.len() + 1,
+            && forall|i: int| g0.len() <= i < g1.len() - 1 ==> (#[trigger] g1[i]).token == Token::Dedent && g1[i].pos.start == pre.pos)
+    &&& res.len() == g1.len() + gnl.len() + 1
+    &&& res.drop_last() =~= g1 + gnl
+}
+
+#[verifier::spinoff_prover]
+pub proof fn lemma_token_synthetic(pre: State, g0: Seq<Lex>, gnl: Seq<Lex>, g1: Seq<Lex>, res: Seq<Lex>, ki: int, kd: int)
+    requires token_shape(pre, g0, gnl, g1, res, ki, kd),
+    ensures forall|i: int| 0 <= i < res.len() - 1 ==> is_synthetic(#[trigger] res[i].token) && caret_le(res[i].pos.start, pre.pos),
 {
     let d = res.drop_last();
-    let mid = g1.subrange(g0.len() as int, g1.len() as int);
-    assert(g1 =~= g0 + mid);
     assert forall|i: int| 0 <= i < res.len() - 1 implies is_synthetic(#[trigger] res[i].token) && caret_le(res[i].pos.start, pre.pos) by {
         assert(res[i] == d[i]);
         if i < g0.len() {
-            assert(d[i] == g0[i]);
+            assert(d[i] == g1[i]);
+            assert(g1[i] == g1.subrange(0, g0.len() as int)[i]);
             assert(g0[i] == pre.newlines@.last());
         } else if i < g1.len() {
             assert(d[i] == g1[i]);
@@ -390,6 +390,19 @@ pub proof fn lemma_token_output(pre: State, g0: Seq<Lex>, gnl: Seq<Lex>, g1: Seq
             assert(gnl[i - g1.len()] == pre.newlines@[i - g1.len()]);
         }
     }
+}
+
+#[verifier::spinoff_prover]
+pub proof fn lemma_token_counts(pre: State, g0: Seq<Lex>, gnl: Seq<Lex>, g1: Seq<Lex>, res: Seq<Lex>, ki: int, kd: int)
+    requires token_shape(pre, g0, gnl, g1, res, ki, kd),
+    ensures
+        kd < 0 ==> count_tok(res.drop_last(), Token::Indent) == ki && count_tok(res.drop_last(), Token::Dedent) == 0
+            && count_tok(res.drop_last(), Token::NL) == pre.newlines@.len(),
+        kd >= 0 ==> count_tok(res.drop_last(), Token::Indent) == 0 && count_tok(res.drop_last(), Token::Dedent) == kd
+            && count_tok(res.drop_last(), Token::NL) == pre.newlines@.len() + 1,
+{
+    let mid = g1.subrange(g0.len() as int, g1.len() as int);
+    assert(g1 =~= g0 + mid);
     lemma_count_uniform(g0, Token::NL, Token::Indent);
     lemma_count_uniform(g0, Token::NL, Token::Dedent);
     lemma_count_uniform(g0, Token::NL, Token::NL);
@@ -419,6 +432,84 @@ pub proof fn lemma_token_output(pre: State, g0: Seq<Lex>, gnl: Seq<Lex>, g1: Seq
         lemma_count_uniform(seq![mid.last()], Token::NL, Token::Dedent);
         lemma_count_uniform(seq![mid.last()], Token::NL, Token::NL);
     }
+}
+
+// ---- doc-string pass (C18 "... and doc-strings"): `""` `"doc"` `""` become one DocStr token ----------------------------
+/// the three quotes of a doc-string as the lexer emits them: consecutive spans, each ending where span_end says
+pub open spec fn triple_ok(f: Lex, m: Lex, b: Lex) -> bool {
+    &&& f.token matches Token::Str(fs, _) && fs@.len() == 0
+    &&& b.token matches Token::Str(bs, _) && bs@.len() == 0
+    &&& m.token is Str
+    &&& f.pos.end.line == span_end(f.pos.start, f.token).0 && f.pos.end.pos == span_end(f.pos.start, f.token).1
+    &&& m.pos.start == f.pos.end
+    &&& m.pos.end.line == span_end(m.pos.start, m.token).0 && m.pos.end.pos == span_end(m.pos.start, m.token).1
+    &&& b.pos.start == m.pos.end
+    &&& b.pos.end.line == span_end(b.pos.start, b.token).0 && b.pos.end.pos == span_end(b.pos.start, b.token).1
+}
+pub open spec fn str_of(t: Token) -> String { match t { Token::Str(s, _) => s, _ => arbitrary() } }
+pub open spec fn str_payload(t: Token) -> Seq<char> { match t { Token::Str(s, _) => s@, _ => Seq::empty() } }
+
+pub open spec fn wcount(d: DocString) -> int {
+    (if d.front is Some { 1int } else { 0int }) + (if d.middle is Some { 1int } else { 0int }) + (if d.back is Some { 1int } else { 0int })
+}
+pub open spec fn lex_small(x: Lex) -> bool {
+    small(x.pos.start.line) && small(x.pos.start.pos)
+    && tok_breaks(x.token) + 8 < 0x4000_0000 && tok_width(x.token) + 8 < 0x4000_0000 && tok_last_line_width(x.token) + 8 < 0x4000_0000
+}
+pub proof fn lemma_empty_no_breaks(s: Seq<char>)
+    requires s.len() == 0,
+    ensures str_breaks(s) == 0,
+{}
+
+impl DocString {
+//@@ FN src/parse/lex/pass/docstring.rs | impl DocString | new
+    ensures r.front is None, r.middle is None, r.back is None,                   //# window_starts_empty [C18]
+//@@ END
+//@@ FN src/parse/lex/pass/docstring.rs | impl DocString | add
+    ensures
+        final(self).front == old(self).middle, final(self).middle == old(self).back, final(self).back == Some(*lex),   //# window_slides_by_one [C18]
+        old(self).front is None ==> wcount(*final(self)) <= wcount(*old(self)) + 1,
+//@@ END
+//@@ FN src/parse/lex/pass/docstring.rs | impl DocString | get
+//@@ HINT before
+//@@< return vec![Lex::new($front.pos.start, Token::DocStr($doc))];
+//@@> proof { lemma_empty_no_breaks(str_payload(old(self).front->Some_0.token)); lemma_empty_no_breaks(str_payload(old(self).back->Some_0.token)); }
+    requires
+        old(self).front matches Some(f) ==> lex_small(f),
+        old(self).middle matches Some(m) ==> lex_small(m),                       //# sizes_below_2_30 [C03]
+    ensures
+        r@.len() <= 1,                                                           //# at_most_one_token_leaves_the_window [C18]
+        // a merged doc-string token starts at the first quote and ends at the last one: its span is exactly the
+        // union of the three quote tokens' spans
+        (old(self).front matches Some(f) && old(self).middle matches Some(m) && old(self).back matches Some(b)
+            && triple_ok(f, m, b) && r@.len() == 1 && r@[0].token is DocStr)
+            ==> (r@[0].pos.start == old(self).front->Some_0.pos.start && r@[0].pos.end == old(self).back->Some_0.pos.end
+                 && r@[0].token == Token::DocStr(str_of(old(self).middle->Some_0.token))),   //# doc_string_span_covers_all_three_quotes [C18]
+        // otherwise the oldest token leaves the window unchanged (or nothing does)
+        (r@.len() == 1 && !(r@[0].token is DocStr)) ==> old(self).front == Some(r@[0]),   //# other_tokens_pass_unchanged [C18]
+        // frame for the window (needed by the pass loop): what stays in the window was in it before
+        (final(self).front matches Some(x) ==> old(self).front == Some(x)),
+        (final(self).middle matches Some(x) ==> old(self).middle == Some(x)),
+        (final(self).back matches Some(x) ==> old(self).back == Some(x)),         //# window_only_shrinks [C18]
+        r@.len() + wcount(*final(self)) <= wcount(*old(self)),                   //# no_token_is_duplicated [C18]
+        final(self).front is None,                                               //# oldest_token_always_leaves [C18]
+//@@ END
+#[verifier::loop_isolation(false)]
+//@@ FN src/parse/lex/pass/docstring.rs | impl Pass for DocString | modify
+//@@ ITERNAME
+//@@< for $lex in input
+//@@> for $lex in it: input
+//@@ LOOPINV
+//@@< for $lex in input
+//@@> invariant (self.front matches Some(x) ==> lex_small(x)), (self.middle matches Some(x) ==> lex_small(x)), (self.back matches Some(x) ==> lex_small(x)), out@.len() + wcount(*self) <= it.index@, self.front is None,
+    requires forall|i: int| 0 <= i < input@.len() ==> lex_small(#[trigger] input@[i]),
+        old(self).front is None, old(self).middle is None, old(self).back is None,   //# sizes_below_2_30 [C03]
+    ensures r@.len() <= input@.len(),                                            //# pass_never_adds_tokens [C18]
+//@@ END
+//@@ FN src/parse/lex/pass/docstring.rs | impl DocString | flush
+    ensures
+        r@.len() == (if old(self).front is Some { 1int } else { 0int }) + (if old(self).middle is Some { 1int } else { 0int }) + (if old(self).back is Some { 1int } else { 0int }),   //# flush_emits_what_is_left [C18]
+//@@ END
 }
 
 //@@ INCLUDE lex_lemmas.inc.rs
